@@ -329,8 +329,9 @@ def _unit_rss_maps(rng, ss, dim, family):
     return S / rss
 
 
-def _coil_case(T, base, dim, c, seed, family):
-    """-> list of (key, what, observed) of the coil-operator laws failing on this input"""
+def _coil_case(T, base, dim, c, seed, family, neg=False):
+    """-> list of (key, what, observed) of the coil-operator laws failing on this input.  `neg`: the coil axis is passed as a
+    negative index of the (…, 2) tensors (`dim - ndim`), the references are always computed with the positive axis."""
     import random
 
     r = random.Random(seed)
@@ -339,12 +340,14 @@ def _coil_case(T, base, dim, c, seed, family):
     x, x2 = _ints(r, base + [2], -4, 4), _ints(r, base + [2], -4, 4)
     y, y2 = _ints(r, ss + [2], -4, 4), _ints(r, ss + [2], -4, 4)
     bad = []
+    da = dim - (len(base) + 2) if neg else dim           # as passed to expand / reduce (tensors of rank len(base)+2 incl. the pair axis)
+    dr = dim - (len(base) + 1) if neg else dim           # as passed to root_sum_of_squares (axis of the tensor after the pair axis is summed)
     try:
-        Ex, Ry = T.expand_operator(x, S, dim=dim), T.reduce_operator(y, S, dim=dim)
+        Ex, Ry = T.expand_operator(x, S, dim=da), T.reduce_operator(y, S, dim=da)
     except Exception as e:  # noqa: BLE001
-        return [("coil-op-raises", f"expand/reduce raise {err_name(e)} on valid input", repr(e))]
+        return [("coil-op-raises" + ("/negative-dim" if neg else ""), f"expand/reduce raise {err_name(e)} on valid input (dim={da})", repr(e))]
     if list(Ex.shape) != ss + [2] or list(Ry.shape) != base + [2]:
-        return [("coil-op-shape", "expand/reduce return the wrong shape", [list(Ex.shape), list(Ry.shape)])]
+        return [("coil-op-shape" + ("/negative-dim" if neg else ""), f"expand/reduce return the wrong shape (dim={da})", [list(Ex.shape), list(Ry.shape)])]
     # definitions against native complex arithmetic
     ref_E = torch.view_as_real(_c(S) * _c(x).unsqueeze(dim))
     ref_R = torch.view_as_real((_c(S).conj() * _c(y)).sum(dim))
@@ -370,18 +373,18 @@ def _coil_case(T, base, dim, c, seed, family):
 
     def lin_e():
         ax = cm(a.expand_as(x).contiguous(), x)
-        return torch.equal(T.expand_operator(ax + x2, S, dim=dim), cm(a.expand_as(Ex).contiguous(), Ex) + T.expand_operator(x2, S, dim=dim)), None
+        return torch.equal(T.expand_operator(ax + x2, S, dim=da), cm(a.expand_as(Ex).contiguous(), Ex) + T.expand_operator(x2, S, dim=da)), None
 
     def lin_r():
         ay = cm(a.expand_as(y).contiguous(), y)
-        return torch.equal(T.reduce_operator(ay + y2, S, dim=dim), cm(a.expand_as(Ry).contiguous(), Ry) + T.reduce_operator(y2, S, dim=dim)), None
+        return torch.equal(T.reduce_operator(ay + y2, S, dim=da), cm(a.expand_as(Ry).contiguous(), Ry) + T.reduce_operator(y2, S, dim=da)), None
     law("expand-linear", "E(a x + x') != a E(x) + E(x')", lin_e)
     law("reduce-linear", "R(a y + y') != a R(y) + R(y')", lin_r)
 
     # reduce ∘ expand = id for unit-RSS maps
     def re_id():
         U = _unit_rss_maps(r, ss, dim, family)
-        back = T.reduce_operator(T.expand_operator(x, U, dim=dim), U, dim=dim)
+        back = T.reduce_operator(T.expand_operator(x, U, dim=da), U, dim=da)
         exact = family == "onehot" or (family == "half" and c == 4)
         ok = back.shape == x.shape and (torch.equal(back, x) if exact else torch.allclose(back, x, atol=1e-4))
         return ok, (float((back - x).abs().max()) if back.shape == x.shape else "shape")
@@ -390,18 +393,88 @@ def _coil_case(T, base, dim, c, seed, family):
     # without normalisation: R(E(x)) = rss^2 * x   (exact on integers; rss^2 computed natively)
     def re_rss():
         rss2 = (S.double() ** 2).sum(-1).sum(dim)
-        got = T.reduce_operator(Ex, S, dim=dim)
+        got = T.reduce_operator(Ex, S, dim=da)
         ref = (rss2.unsqueeze(-1) * x.double()).float()
         return got.shape == ref.shape and torch.equal(got, ref), None
     law("reduce-expand-rss", "R(E(x)) != (sum_i |S_i|^2) * x", re_rss)
 
     # root_sum_of_squares along the coil axis (squares compared exactly)
     def rss_def():
-        got = T.root_sum_of_squares(S, dim=dim).double()
+        got = T.root_sum_of_squares(S, dim=dr).double()
         ref = (S.double() ** 2).sum(-1).sum(dim)
         return got.shape == ref.shape and bool(torch.all((got - ref.sqrt()).abs() <= 1e-5 * ref.sqrt().clamp(min=1.0))), None
     law("rss-definition", "root_sum_of_squares != sqrt(sum_i |S_i|^2) along the coil axis", rss_def)
-    return bad
+    return [(k + "/negative-dim", w + f" (coil axis passed as {da})", o) for k, w, o in bad] if neg else bad
+
+
+def _native_case(T, seed):
+    """one random float case (everything derived from `seed`) -> (failures [(key, what, observed)], nontrivial, bucket)"""
+    import random
+
+    r = random.Random(seed)
+    sa = _cshape(r)
+    rank = len(sa)
+    g = torch.Generator().manual_seed(r.randrange(2 ** 31))
+    a = torch.randn(tuple(sa) + (2,), generator=g) * 3
+    mode = r.choice(["same", "same", "bcast1", "drop-lead"])
+    sb = list(sa)
+    if mode == "bcast1":
+        sb[r.randrange(rank)] = 1
+    elif mode == "drop-lead":
+        sb = sb[r.randint(1, rank - 1):]
+    b = torch.randn(tuple(sb) + (2,), generator=g) * 3
+    zero = torch.rand(tuple(sb), generator=g) < 0.2
+    b[zero] = 0.0
+    ca, cb = _c(a), _c(b)
+    neg = r.random() < 0.5
+    bad = []
+
+    def chk(key, thunk, ref, tol=1e-4):
+        try:
+            got = thunk()
+            ok = got.shape == ref.shape and torch.allclose(got, ref, rtol=tol, atol=tol)
+            obs = float((got - ref).abs().max()) if got.shape == ref.shape else f"shape {list(got.shape)} != {list(ref.shape)}"
+        except Exception as e:  # noqa: BLE001
+            got, ok, obs = None, False, f"raises {err_name(e)}: {e}"[:160]
+        if not ok:
+            bad.append((key, f"{key.split('-')[0]} differs from native complex arithmetic", obs))
+        return got
+
+    chk("cmul-native/" + mode, lambda: T.complex_multiplication(a, b), torch.view_as_real(ca * cb))
+    chk("cmul-native/" + mode, lambda: T.complex_multiplication(b, a), torch.view_as_real(cb * ca))
+    chk("conj-native", lambda: T.conjugate(a), torch.view_as_real(ca.conj().resolve_conj()))
+    # division: zero where the divisor is zero, the quotient elsewhere
+    zb = torch.broadcast_to(zero, ca.shape) if mode != "same" else zero
+    cbb = torch.broadcast_to(cb, ca.shape)
+    refq = torch.view_as_real(torch.where(zb, torch.zeros_like(ca), ca / torch.where(zb, torch.ones_like(cbb), cbb)))
+    q = chk("cdiv-native/" + mode, lambda: T.complex_division(a, b), refq)
+    if q is not None and q.shape == refq.shape and (not bool(torch.all(q[zb] == 0)) or bool(torch.isnan(q).any())):
+        bad.append(("cdiv-zero-divisor", "complex_division does not give exactly 0 where the divisor is 0", q[zb].tolist()[:4]))
+    # modulus with the pair axis at position k of the tensor (positive or negative index)
+    k = r.randrange(rank + 1)
+    am = a.movedim(-1, k).contiguous()
+    ka = k - (rank + 1) if neg else k
+    chk("modulus-native" + ("/negative-axis" if neg else ""), lambda: T.modulus(am, complex_axis=ka), ca.abs())
+    # dot product over a list of axes (same-shape operands)
+    b2 = torch.randn(tuple(sa) + (2,), generator=g)
+    dims = sorted(r.sample(range(rank), r.randint(1, rank)))
+    dpass = [d - (rank + 1) for d in dims] if neg else list(dims)
+    chk("cdot-native" + ("/negative-axis" if neg else ""), lambda: T.complex_dot_product(a, b2, dpass),
+        torch.view_as_real((ca.conj() * _c(b2)).sum(tuple(dims))), tol=1e-3)
+    # root_sum_of_squares: complex data (axis of the tensor without the pair axis) and real data
+    d = r.randrange(rank)
+    chk("rss-native" + ("/negative-axis" if neg else ""), lambda: T.root_sum_of_squares(a, dim=d - rank if neg else d),
+        (ca.abs() ** 2).sum(d).sqrt())
+    real = torch.randn(tuple(sa[:-1]) + (r.choice([1, 3]),), generator=g)
+    d2 = r.randrange(rank)
+    chk("rss-native/real-data" + ("/negative-axis" if neg else ""), lambda: T.root_sum_of_squares(real, dim=d2 - rank if neg else d2),
+        (real ** 2).sum(d2).sqrt())
+    # matrix products
+    bb, n, m, p = r.randint(1, 3), r.randint(1, 4), r.randint(1, 4), r.randint(1, 4)
+    A, B = torch.randn(bb, n, m, 2, generator=g), torch.randn(bb, m, p, 2, generator=g)
+    chk("mm-native", lambda: torch.view_as_real(T.complex_mm(_c(A[0]), _c(B[0]))), torch.view_as_real(_c(A[0]) @ _c(B[0])))
+    chk("bmm-native", lambda: torch.view_as_real(T.complex_bmm(_c(A), _c(B))), torch.view_as_real(_c(A) @ _c(B)))
+    return bad, _prod(sa) > 1, mode + ("/negative-axes" if neg else "/positive-axes")
 
 
 def oracle(ctx: Ctx, deep: bool = False):
@@ -410,54 +483,15 @@ def oracle(ctx: Ctx, deep: bool = False):
 
     rng = ctx.rng
     big = deep or ctx.thorough
-    # (1) helpers vs native complex arithmetic on random float data (tolerance) ---------------------------------------
-    for _ in range(ctx.budget(60, 600) * (3 if deep else 1)):
-        sa = _cshape(rng)
-        g = torch.Generator().manual_seed(rng.randrange(2 ** 31))
-        a, b = torch.randn(tuple(sa) + (2,), generator=g) * 3, torch.randn(tuple(sa) + (2,), generator=g) * 3
-        zero = torch.rand(tuple(sa), generator=g) < 0.2
-        b[zero] = 0.0
-        ca, cb = _c(a), _c(b)
-        ctx.count(("native", tuple(sa), int(zero.sum())), _prod(sa) > 1, bucket="oracle/native-float")
-        refq = torch.view_as_real(torch.where(zero, torch.zeros_like(ca), ca / torch.where(zero, torch.ones_like(cb), cb)))
-        checks = [
-            ("cmul-native", lambda: T.complex_multiplication(a, b), torch.view_as_real(ca * cb)),
-            ("conj-native", lambda: T.conjugate(a), torch.view_as_real(ca.conj().resolve_conj())),
-            ("modulus-native", lambda: T.modulus(a), ca.abs()),
-            ("cdot-native", lambda: T.complex_dot_product(a, b, [0, 1]), torch.view_as_real((ca.conj() * cb).sum((0, 1)))),
-            ("rss-native", lambda: T.root_sum_of_squares(a, dim=1), (ca.abs() ** 2).sum(1).sqrt()),
-            ("cdiv-native", lambda: T.complex_division(a, b), refq),
-        ]
-        q = None
-        for key, thunk, ref in checks:
-            try:
-                got = thunk()
-                ok = got.shape == ref.shape and torch.allclose(got, ref, rtol=1e-4, atol=1e-4)
-                obs = float((got - ref).abs().max()) if got.shape == ref.shape else f"shape {list(got.shape)}"
-            except Exception as e:  # noqa: BLE001
-                got, ok, obs = None, False, f"raises {err_name(e)}"
-            if key == "cdiv-native":
-                q = got
-            if not ok:
-                yield Violation(key, f"{key.split('-')[0]} differs from native complex arithmetic",
-                                {"op": "native", "law": key, "shape": sa, "seed": ctx.seed, "observed": obs})
-        if q is None or q.shape != a.shape:
-            continue
-        if not torch.all(q[zero] == 0) or torch.isnan(q).any():
-            yield Violation("cdiv-zero-divisor", "complex_division does not give exactly 0 where the divisor is 0",
-                            {"op": "cdiv-zero", "a": a[zero].tolist()[:4], "observed": q[zero].tolist()[:4]})
-        n, m, p = rng.randint(1, 4), rng.randint(1, 4), rng.randint(1, 4)
-        A, B = torch.randn(2, n, m, 2, generator=g), torch.randn(2, m, p, 2, generator=g)
-        for key, thunk, ref in (("mm-native", lambda: T.complex_mm(_c(A[0]), _c(B[0])), _c(A[0]) @ _c(B[0])),
-                                ("bmm-native", lambda: T.complex_bmm(_c(A), _c(B)), _c(A) @ _c(B))):
-            try:
-                got = thunk()
-                ok = got.shape == ref.shape and torch.allclose(got, ref, atol=1e-4)
-            except Exception:  # noqa: BLE001
-                ok = False
-            if not ok:
-                yield Violation(key, f"complex_{key.split('-')[0]} differs from the complex matrix product",
-                                {"op": key.split('-')[0], "n": n, "m": m, "p": p})
+    # (1) helpers vs native complex arithmetic on random float data (tolerance), in every argument form the correspondence
+    #     generates: broadcasting operands, axis lists for the dot product, positive and negative axes, the pair axis of
+    #     `modulus` anywhere, complex and real input of root_sum_of_squares, (batched) matrix shapes ------------------------
+    for _ in range(ctx.budget(120, 1200) * (3 if deep else 1)):
+        seed = rng.randrange(2 ** 31)
+        bad, nt, bucket = _native_case(T, seed)
+        ctx.count(("native", seed), nt, bucket="oracle/native-float/" + bucket)
+        for key, what, obs in bad:
+            yield Violation(key, what, {"op": "native", "law": key, "seed": seed, "observed": obs})
     # exact: division by zero gives 0 for every numerator class (incl. huge), and a non-complex input to complex_mm is rejected
     for num in ([1.0, 2.0], [0.0, 0.0], [-3e30, 1e-30], [3e38, -3e38]):
         ctx.count(("div0", tuple(num)), True, bucket="oracle/div-by-zero")
@@ -482,10 +516,12 @@ def oracle(ctx: Ctx, deep: bool = False):
             k += 1
             c = 4 if fam == "half" else rng.choice([1, 2, 3, 4])
             seed = rng.randrange(2 ** 31)
-            ctx.count(("coil", tuple(base), dim, c, seed), c >= 2, bucket=f"oracle/coil/r{len(base)}/dim{dim}/{fam}" + ("/c=1" if c == 1 else ""))
-            for key, what, obs in _coil_case(T, base, dim, c, seed, fam):
-                yield Violation(key, what, {"op": "coil", "base": base, "dim": dim, "coils": c, "seed": seed, "family": fam,
-                                            "law": key, "observed": obs})
+            for neg in (False, True):
+                ctx.count(("coil", tuple(base), dim, c, seed, neg), c >= 2,
+                          bucket=f"oracle/coil/r{len(base)}/dim{dim}/{fam}" + ("/c=1" if c == 1 else "") + ("/negative-dim" if neg else ""))
+                for key, what, obs in _coil_case(T, base, dim, c, seed, fam, neg):
+                    yield Violation(key, what, {"op": "coil", "base": base, "dim": dim, "coils": c, "seed": seed, "family": fam,
+                                                "neg": neg, "law": key, "observed": obs})
     # (3) float range.  (a) always on: while no intermediate product / square leaves the normal float32 range (operands
     #     scaled by 1e-18 .. 1e18 at a common scale, 1e-9 .. 1e9 at mixed scales) every helper must agree with the exact
     #     (float64) complex result — a deviation here is a NEW defect: key `native-mismatch:<helper>`.
@@ -635,7 +671,10 @@ def replay(rep: dict) -> bool:
     op = rep.get("op")
     try:
         if op == "coil":
-            bad = _coil_case(T, rep["base"], rep["dim"], rep["coils"], rep["seed"], rep["family"])
+            bad = _coil_case(T, rep["base"], rep["dim"], rep["coils"], rep["seed"], rep["family"], rep.get("neg", False))
+            return any(k == rep["law"] for k, _, _ in bad)
+        if op == "native":
+            bad, _, _ = _native_case(T, rep["seed"])
             return any(k == rep["law"] for k, _, _ in bad)
         if op == "cdiv-zero":
             q = T.complex_division(torch.tensor([rep["a"]]).reshape(-1, 2), torch.zeros(1, 2))
